@@ -408,6 +408,11 @@ func treeGen(seed int64, n int, args []string, out *json.Encoder) {
 					c.H = append(c.H, hEntry{M: m2, R: rt, Ok: true, Hdr: []hdrC{}, Call: call, Ck: "any"})
 					rgs = append(rgs, rg)
 				}
+			} else if kind == "hdr" && rng.Intn(8) == 0 && m == "GET" {
+				// Get() under AutoHead: GET and HEAD through one call, one handle
+				c.H[len(c.H)-1].Ck = "autohead"
+				c.H = append(c.H, hEntry{M: "HEAD", R: rt, Ok: true, Hdr: []hdrC{}, Call: call, Ck: "autohead"})
+				rgs = append(rgs, rg)
 			} else if kind == "hdr" && rng.Intn(4) == 0 {
 				// the same route for a second method through ONE Routes() call (one handle)
 				m2 := pick(rng, []string{"POST", "HEAD", "PUT"})
